@@ -2,7 +2,7 @@
 # For every repaired defect (fixed entries of known_findings.json): revert the fix in a scratch copy and run the
 # quick tier of the property that found it. Results: /verif/seeded/reverts/results.tsv
 cd /verif
-python3 - <<'PY' > /tmp/revert_list.txt
+python3 - <<'PY' > /tmp/revert_list-${LANE:-0}.txt
 import json
 seen=set()
 for e in json.load(open('/verif/known_findings.json')):
@@ -11,13 +11,16 @@ for e in json.load(open('/verif/known_findings.json')):
             if (c,e['property']) not in seen:
                 seen.add((c,e['property'])); print(c,e['property'])
 PY
+n=0
 while read commit prop; do
+  n=$((n+1))
+  [ -n "${LANES:-}" ] && [ $((n % LANES)) -ne ${LANE:-0} ] && continue
   grep -q "^$commit	$prop	" seeded/reverts/results.tsv 2>/dev/null && continue
-  git -C /repo diff $commit $commit^ -- rust > /tmp/revert-$commit.diff
-  out=$(nice -n 10 tools/mutant.sh /tmp/revert-$commit.diff $prop 2>&1)
+  git -C /repo diff $commit $commit^ -- rust > /tmp/revert-$commit-$prop.diff
+  out=$(nice -n 10 tools/mutant.sh /tmp/revert-$commit-$prop.diff $prop 2>&1)
   res=$(echo "$out" | grep -o "MUTANT-RESULT.*\|PATCH-FAILED\|BUILD-FAILED" | head -1)
   sig=$(echo "$out" | grep -m1 "signature:" | sed 's/^ *signature: //' | cut -c1-160)
   printf "%s\t%s\t%s\t%s\t%s\n" "$commit" "$prop" "$res" "$sig" "$(git -C /repo log --format=%s -1 $commit | cut -c1-100)" >> seeded/reverts/results.tsv
-  rm -f /tmp/revert-$commit.diff
-done < /tmp/revert_list.txt
-echo DONE >> seeded/reverts/results.tsv
+  rm -f /tmp/revert-$commit-$prop.diff
+done < /tmp/revert_list-${LANE:-0}.txt
+
